@@ -53,6 +53,7 @@ impl<'a, T> IntoIterator for &'a mut Own<T> {
     type Item = &'a mut T; type IntoIter = std::iter::Rev<std::slice::IterMut<'a, T>>;
     fn into_iter(self) -> Self::IntoIter { self.tw_mut().v.iter_mut().rev() }
 }
+pub fn lko(id: u32) -> &'static Own<A> { Box::leak(Box::new(Own::new(id, vec![A(id + 1), A(id + 2), A(id + 3)]))) }
 pub type OwnA = Own<A>;
 pub type OwnB = Own<B>;
 pub type VecA = Vec<A>;
@@ -85,7 +86,7 @@ struct Ty {
     foreign: &'static [(&'static str, &'static str)],
 }
 
-const TYS: [Ty; 7] = [
+const TYS: [Ty; 8] = [
     Ty { decl: "Own<A>", inst: "Own<A>", caps: 15, elem: "A", selfs: &[("Own<A>", true), ("OwnA", true), ("crate::Own<A>", true)], foreign: &[("[A]", "[A]"), ("Vec<A>", "Vec<A>")] },
     Ty { decl: "Own<B>", inst: "Own<B>", caps: 15, elem: "B", selfs: &[("Own<B>", true), ("OwnB", true), ("crate::Own<B>", true)], foreign: &[("[B]", "[B]"), ("Vec<B>", "Vec<B>")] },
     Ty { decl: "Vec<A>", inst: "Vec<A>", caps: 15, elem: "A", selfs: &[("Vec<A>", true), ("VecA", true), ("std::vec::Vec<A>", true)], foreign: &[("[A]", "[A]")] },
@@ -94,6 +95,8 @@ const TYS: [Ty; 7] = [
     Ty { decl: "Box<Own<A>>", inst: "Box<Own<A>>", caps: 9, elem: "A", selfs: &[("Box<Own<A>>", true), ("BoxOwnA", true), ("std::boxed::Box<Own<A>>", true)], foreign: &[("Own<A>", "Own<A>")] },
     Ty { decl: "u64", inst: "u64", caps: 0, elem: "", selfs: &[], foreign: &[] },
     Ty { decl: "String", inst: "String", caps: 0, elem: "", selfs: &[], foreign: &[] },
+    // deref.md: forwarding is meant "for when the field itself is a reference type like `&` and `Box`"
+    Ty { decl: "&'static Own<A>", inst: "&'static Own<A>", caps: 1, elem: "A", selfs: &[], foreign: &[] },
 ];
 
 fn value_of(ty: usize, k: usize) -> String {
@@ -105,6 +108,7 @@ fn value_of(ty: usize, k: usize) -> String {
         2 => elems,
         4 => format!("Box::new(Own::new({b}, {elems}))"),
         5 => format!("{b}u64"),
+        7 => format!("lko({b})"),
         _ => format!("String::from(\"s{b}\")"),
     }
 }
@@ -114,6 +118,7 @@ fn write_probe(ty: usize, f: &str) -> (String, String) {
         0 | 1 | 3 | 4 => ("r.id = 4242;".into(), format!("s.{f}.id == 4242")),
         2 => ("r.push(A(4242));".into(), format!("s.{f}.last() == Some(&A(4242))")),
         5 => ("*r = 4242;".into(), format!("s.{f} == 4242")),
+        7 => ("*r = lko(4242);".into(), format!("s.{f}.id == 4242")),
         _ => ("r.push_str(\"4242\");".into(), format!("s.{f}.ends_with(\"4242\")")),
     }
 }
@@ -189,7 +194,9 @@ fn gen_legacy(d: &mut Dice, tys: &[usize], cap: u8, can_forward: bool, is_iter: 
     // ignore-the-others style (tests/deref.rs)
     let at_struct = if is_iter { nf == 1 && !kinds.is_empty() && d.chance(50) } else { forward && (nf == 1 || !mark) && d.chance(50) };
     let bare = nf == 1 && !at_struct && d.chance(30);
-    Some(Legacy { sel, mark, forward, at_struct, bare, with_mut: d.chance(70), kinds })
+    // `&T` has no DerefMut of its own, so a forwarded DerefMut cannot be asked for there
+    let with_mut = d.chance(70) && !(forward && tys[sel] == 7);
+    Some(Legacy { sel, mark, forward, at_struct, bare, with_mut, kinds })
 }
 
 fn gen_types(d: &mut Dice, ty: usize) -> Vec<(String, String, bool)> {
@@ -279,7 +286,7 @@ fn gen_model(d: &mut Dice) -> Model {
         if k > 0 && d.chance(65) {
             tys.push(tys[k - 1]);
         } else {
-            tys.push(d.weighted(&[6, 2, 4, 4, 2, 1, 1]));
+            tys.push(d.weighted(&[6, 2, 4, 4, 2, 1, 1, 2]));
         }
     }
     let names: Vec<String> = (0..nf).map(|k| if named { NAMES[k].to_string() } else { k.to_string() }).collect();
@@ -527,6 +534,7 @@ fn render(m: &Model) -> GenCase {
         selected.push(k);
         let expected: Vec<usize> = if l.kinds.is_empty() { vec![0] } else { l.kinds.clone() };
         let found = discover_iter_kinds(&item);
+        run.push_str("    let mut forms: Vec<String> = vec![];\n");
         for kind in 0..3 {
             if !expected.contains(&kind) && !found.contains(&kind) {
                 continue;
@@ -536,16 +544,17 @@ fn render(m: &Model) -> GenCase {
             }
             match kind {
                 0 => run.push_str(&format!(
-                    "    {{\n        let got: Vec<_> = <SC as IntoIterator>::into_iter(mk()).collect();\n        let exp: Vec<_> = <{t} as IntoIterator>::into_iter(mk().{fk}).collect();\n        o.eq(\"owned iteration yields the elements of the selected field's own into_iter() in the same order\", &format!(\"{{exp:?}}\"), &format!(\"{{got:?}}\"));\n        o.check(\"owned iteration is not empty\", got.len() == 3);\n    }}\n"
+                    "    {{\n        let got: Vec<_> = <SC as IntoIterator>::into_iter(mk()).collect();\n        let exp: Vec<_> = <{t} as IntoIterator>::into_iter(mk().{fk}).collect();\n        o.eq(\"owned iteration yields the elements of the selected field's own into_iter() in the same order\", &format!(\"{{exp:?}}\"), &format!(\"{{got:?}}\"));\n        o.check(\"owned iteration is not empty\", got.len() == 3);\n        forms.push(format!(\"{{got:?}}\"));\n    }}\n"
                 )),
                 1 => run.push_str(&format!(
-                    "    {{\n        let s = mk();\n        let got: Vec<_> = <&SC as IntoIterator>::into_iter(&s).map(|x| id(x)).collect();\n        let exp: Vec<_> = <&{t} as IntoIterator>::into_iter(&s.{fk}).map(|x| id(x)).collect();\n        o.eq(\"shared iteration yields the very elements of the selected field's own (&field).into_iter() in the same order\", &format!(\"{{exp:?}}\"), &format!(\"{{got:?}}\"));\n        o.check(\"shared iteration is not empty\", got.len() == 3);\n    }}\n"
+                    "    {{\n        let s = mk();\n        let got: Vec<_> = <&SC as IntoIterator>::into_iter(&s).map(|x| id(x)).collect();\n        let exp: Vec<_> = <&{t} as IntoIterator>::into_iter(&s.{fk}).map(|x| id(x)).collect();\n        o.eq(\"shared iteration yields the very elements of the selected field's own (&field).into_iter() in the same order\", &format!(\"{{exp:?}}\"), &format!(\"{{got:?}}\"));\n        o.check(\"shared iteration is not empty\", got.len() == 3);\n        forms.push(format!(\"{{:?}}\", <&SC as IntoIterator>::into_iter(&s).collect::<Vec<_>>()));\n    }}\n"
                 )),
                 _ => run.push_str(&format!(
-                    "    {{\n        let mut s = mk();\n        let got: Vec<_> = <&mut SC as IntoIterator>::into_iter(&mut s).map(|x| id(&*x)).collect();\n        let exp: Vec<_> = <&mut {t} as IntoIterator>::into_iter(&mut s.{fk}).map(|x| id(&*x)).collect();\n        o.eq(\"mutable iteration yields the very elements of the selected field's own (&mut field).into_iter() in the same order\", &format!(\"{{exp:?}}\"), &format!(\"{{got:?}}\"));\n        o.check(\"mutable iteration is not empty\", got.len() == 3);\n    }}\n"
+                    "    {{\n        let mut s = mk();\n        let got: Vec<_> = <&mut SC as IntoIterator>::into_iter(&mut s).map(|x| id(&*x)).collect();\n        let exp: Vec<_> = <&mut {t} as IntoIterator>::into_iter(&mut s.{fk}).map(|x| id(&*x)).collect();\n        o.eq(\"mutable iteration yields the very elements of the selected field's own (&mut field).into_iter() in the same order\", &format!(\"{{exp:?}}\"), &format!(\"{{got:?}}\"));\n        o.check(\"mutable iteration is not empty\", got.len() == 3);\n        forms.push(format!(\"{{:?}}\", <&mut SC as IntoIterator>::into_iter(&mut s).collect::<Vec<_>>()));\n    }}\n"
                 )),
             }
         }
+        run.push_str("    for w in forms.windows(2) {\n        o.eq(\"the owned, shared and mutable iteration forms visit the same elements in the same order\", &w[0], &w[1]);\n    }\n");
         if expected.len() + usize::from(iter_extra) >= 2 || found.len() >= 2 {
             labels.push("into_iterator_several_forms".into());
         }
@@ -693,12 +702,12 @@ pub fn prop() -> DiceProp {
         nightly: false,
         check_only: false,
         ndice: 200,
-        quick: (500, 1),
-        thorough: (1200, 6),
+        quick: (900, 1),
+        thorough: (1800, 6),
         build,
         fixed: no_fixed,
         classify,
-        rule: "tuple / named struct with 1..4 fields (65 % of the neighbours repeat the previous field's type; types `Own<A>`, `Own<B>`, `Own<T>`, `Vec<A>`, `Box<Own<A>>`, fillers) deriving a subset of Deref(+DerefMut), Index(+IndexMut), IntoIterator, AsRef, AsMut, each with its own selected field expressed by `#[attr]` on it or `#[attr(ignore)]` on the others (AsRef/AsMut: marked fields, skip style), `forward` on field or struct, type lists containing the field's own type verbatim / through an alias / through another path and foreign types, owned/ref/ref_mut; oracle: (address, size) of what the derived impl returns == the selected field's own storage (no forward; listed type == field type) resp. == what `<FieldTy as Trait>::method(&s.field)` returns (forward, index, listed foreign type), element addresses/values and order for the three iteration forms, writes through the mutable forms visible in the field; `Own`'s own impls answer from a second allocation so the two expectations never coincide; non-trivial = two fields of equal type, or forward, or a type list; distinct by program text".into(),
+        rule: "tuple / named struct with 1..4 fields (65 % of the neighbours repeat the previous field's type; types `Own<A>`, `Own<B>`, `Own<T>`, `Vec<A>`, `Box<Own<A>>`, `&'static Own<A>`, fillers) deriving a subset of Deref(+DerefMut), Index(+IndexMut), IntoIterator, AsRef, AsMut, each with its own selected field expressed by `#[attr]` on it or `#[attr(ignore)]` on the others (AsRef/AsMut: marked fields, skip style), `forward` on field or struct, type lists containing the field's own type verbatim / through an alias / through another path and foreign types, owned/ref/ref_mut; oracle: (address, size) of what the derived impl returns == the selected field's own storage (no forward; listed type == field type) resp. == what `<FieldTy as Trait>::method(&s.field)` returns (forward, index, listed foreign type), element addresses/values and order for the three iteration forms, writes through the mutable forms visible in the field; `Own`'s own impls answer from a second allocation so the two expectations never coincide; non-trivial = two fields of equal type, or forward, or a type list; distinct by program text".into(),
         assumptions: vec![
             "IntoIterator forms that are not listed in the attribute but present in the expansion (e.g. `owned` next to a lone `ref`) are checked too, their existence is not asserted".into(),
         ],
